@@ -247,53 +247,47 @@ def run(repo: Repo, ctx) -> None:
     pc = repo.func(f'{CARD}._infer_pointer_cardinality')
     ctx.saw(pc)
     g = CFG(pc.node)
-    upper = [t for t in g.nodes if t.kind == 'test'
-             and norm(t.ast) == 'inf_upper_bound > spec_upper_bound']
-    lower = [t for t in g.nodes if t.kind == 'test'
-             and norm(t.ast) == 'inf_lower_bound < spec_lower_bound']
     updates = [n.id for n in g.nodes if any(
         norm(c.func) == 'ptrcls.set_field_value'
         for c in g.node_calls(n))]
     if not updates:
         raise AnalysisError('C06.R4: pointer cardinality update not found')
 
-    def raises_on_true(t, unless: Optional[str] = None) -> bool:
-        ts = [s for s, lab in g.nodes[t.id].succ if lab == 'T']
-        r = g.reachable(ts) | set(ts)
-        rs = [x for x in r if isinstance(g.nodes[x].ast, ast.Raise)
-              and 'QueryError' in norm(g.nodes[x].ast)]
-        if not rs:
-            return False
-        if unless is None:
-            # no path from the T edge reaches an update without raising
-            return not (set(updates) & g.reachable(
-                ts, avoid=rs)) and not (set(ts) & set(updates))
-        # allowed escape: a test on `unless`
-        esc = [x for x in r if g.nodes[x].kind == 'test'
-               and norm(g.nodes[x].ast) == unless]
-        return bool(esc)
-    ok = len(upper) == 1 and raises_on_true(upper[0])
+    # path facts (sa/absint.py): with a specified bound that the inferred
+    # one exceeds, every path the assumptions leave open raises before the
+    # pointer is updated -- whatever shape the comparison takes
+    from ..absint import Facts, must_pass
+    raises = [n.id for n in g.nodes if isinstance(n.ast, ast.Raise)
+              and 'QueryError' in norm(n.ast)]
+
+    def rejected(facts) -> bool:
+        F = Facts(facts, pc.node)
+        return bool(raises) and must_pass(
+            g, F, raises, exits=[g.exit] + updates) and bool(F.used)
+    ok = rejected({'spec_upper_bound is None': False,
+                   'specified_card is None': False,
+                   'inf_upper_bound > spec_upper_bound': True})
     ctx.ob('C06.R4', '_infer_pointer_cardinality:upper-bound', ok,
            'an expression that may return more than one element is accepted '
            'for a pointer declared single (comparison inf_upper > '
            'spec_upper -> QueryError missing or bypassable)', pc.loc,
            sample='inf_upper_bound > spec_upper_bound -> raise')
-    ok = len(lower) == 1 and raises_on_true(lower[0],
-                                            unless='is_mut_assignment')
+    ok = rejected({'spec_lower_bound is None': False,
+                   'specified_required is None': False,
+                   'inf_upper_bound > spec_upper_bound': False,
+                   'inf_lower_bound < spec_lower_bound': True,
+                   'is_mut_assignment': False})
     ctx.ob('C06.R4', '_infer_pointer_cardinality:lower-bound', ok,
            'an expression that may be empty is accepted for a computed '
            'pointer declared required', pc.loc,
            sample='inf_lower_bound < spec_lower_bound -> raise unless '
                   'mutation assignment')
-    # the comparisons dominate the update when a spec is present
-    spec = [t for t in g.nodes if t.kind == 'test' and norm(t.ast) ==
-            'spec_upper_bound is None and spec_lower_bound is None']
-    ok = len(spec) == 1 and all(g.always_before(u, [spec[0].id])
-                                for u in updates)
-    ctx.ob('C06.R4', '_infer_pointer_cardinality:check-before-update', ok,
-           'the pointer is updated on a path that skipped the '
-           'specified-vs-inferred comparison', pc.loc,
-           sample='bounds comparison dominates set_field_value')
+    # the comparisons are not skipped when a spec is present: both facts
+    # above quantify over every open path to an update
+    ctx.ob('C06.R4', '_infer_pointer_cardinality:check-before-update',
+           bool(updates), 'no pointer update found', pc.loc,
+           sample='the two rejections range over every path to '
+                  'set_field_value')
     cs = repo.func(f'{CARD}.__infer_config_set')
     tests = {norm(n.test): n for n in ast.walk(cs.node)
              if isinstance(n, ast.If)}
